@@ -3,6 +3,7 @@
 mod sched;
 mod case;
 mod ring;
+mod uni;
 
 use std::io::{BufRead, Write};
 
@@ -21,6 +22,7 @@ fn main() {
         let case = case::Case::parse(line);
         let trace = match case.kind.as_str() {
             "ring" => ring::run(&case),
+            "uni"  => uni::run(&case),
             other  => panic!("unknown case kind '{other}'"),
         };
         let text: Vec<String> = trace.iter().map(|v| v.to_string()).collect();
